@@ -3,7 +3,7 @@
    configuration; the only configuration-dependent code of the library, the word functions of bit_tools.hpp,
    computes the same values in both of its arms.  Compilers, optimisation levels and uninitialised memory are
    outside the model: observed on the implementation side (four configurations x three containers). *)
-From X Require Import Base Arr BitToolsSpec BitToolsGen BitVector Dac Trie Serial Spec Wf IfaceQuery IfaceBuild Builder
+From X Require Import LayoutGen LayoutFacts Base Arr BitToolsSpec BitToolsGen BitVector Dac Trie Serial Spec Wf IfaceQuery IfaceBuild Builder
   BitToolsFacts BitVectorFacts SerialFacts All AllBuild.
 Local Open Scope N_scope.
 
@@ -43,4 +43,10 @@ Qed.
 Theorem C18_file_determines_structure : forall v P P', trie_fits v P -> trie_fits v P' -> save v P = save v P' -> P = P'.
 Proof. exact save_inj. Qed.
 
+(* the member order and types of every visit() in the current headers are the ones Serial.v models
+   (LayoutGen.v is regenerated from the source on every run) *)
+Theorem C18_layout_is_the_modelled_one : layouts_now = layouts_modelled.
+Proof. exact layout_is_the_modelled_one. Qed.
+
 Print Assumptions C18_file_defined_and_reloadable. Print Assumptions C18_bit_tools_irrelevant. Print Assumptions C18_file_determines_structure.
+Print Assumptions C18_layout_is_the_modelled_one.
